@@ -148,6 +148,7 @@ func runWindow(t *testing.T, sc *WindowScenario) (err error) {
 	}()
 	synctest.Test(t, func(*testing.T) {
 		for r := 0; r < sc.Repeats; r++ {
+			setWhere("repeat %d: a call of the queue (the consumer's Next resumed from between its emptiness check and its select, or Insert/Close/Len of the scenario goroutine)", r)
 			if v := runWindowOnce(sc); v != nil {
 				err = fmt.Errorf("repeat %d: %w", r, v)
 				return
@@ -162,9 +163,14 @@ func TestC11Window(t *testing.T) {
 		t.Skip()
 	}
 	rec := vstat.New("C11", "window")
+	w := watchPart(rec, "rapid")
+	defer w.close()
+	slot := w.slot()
 	rec.RunRapid(t, func(rt *rapid.T) {
 		sc := genWindow(rt)
+		slot.begin(func() (any, string) { return sc, getWhere() })
 		err := runWindow(t, sc)
+		slot.end()
 		var labels []string
 		if sc.Hold {
 			labels = append(labels, "another-goroutine-inside-the-critical-section-when-the-consumer-resumes")
